@@ -12,6 +12,7 @@ import DuckModel.Drv.C09
 import DuckModel.Drv.C10
 import DuckModel.Drv.C11
 import DuckModel.Drv.C12
+import DuckModel.Drv.C12S
 import DuckModel.Drv.C14
 import DuckModel.Drv.C16
 import DuckModel.Drv.C17
@@ -33,6 +34,7 @@ def handlers : List (List String → Option String) := [
   Duck.Drv.C10.handle,
   Duck.Drv.C11.handle,
   Duck.Drv.C12.handle,
+  Duck.Drv.C12S.handle,
   Duck.Drv.C14.handle,
   Duck.Drv.C16.handle,
   Duck.Drv.C17.handle,
